@@ -98,6 +98,10 @@ func Corpus() []Scenario {
 			sel(0, 0), sel(1, 0), app(0, 0), app(0, 0), drain(1), cmd(1, "noop"), cmd(1, "probe"),
 			store(0, []int{2}, "add", false, 1), cmd(0, "expunge"), drain(1), cmd(1, "search"),
 			{Kind: "cmd", S: 1, Cmd: "status", Mb: 1}, cmd(1, "probe"), qs(1)}},
+		{Name: "check-announces-held-removal", K: 2, Ops: []Op{ // CHECK permits EXPUNGE: a removal (and a re-add) held back by SEARCH is announced by it
+			sel(0, 0), sel(1, 0), app(0, 0), app(0, 0), drain(1), cmd(1, "noop"), cmd(1, "probe"),
+			store(0, []int{2}, "add", false, 1), cmd(0, "expunge"), cp(0, []int{1}, 0), drain(1), cmd(1, "search"),
+			cmd(1, "check"), cmd(1, "probe"), qs(1)}},
 		{Name: "forward-flags-complete-in-database", K: 2, Ops: []Op{ // STORE ($Forwarded) means $Forwarded and Forwarded, in the database too
 			sel(0, 0), sel(1, 0), app(0, 0), app(0, 0), drain(1), cmd(1, "noop"),
 			store(0, []int{1}, "set", false, 6), store(0, []int{2}, "add", false, 7, 4), drain(1), qs(1), qs(0),
